@@ -539,7 +539,7 @@ NUMPOOL = [None, 'nan', 'inf', '-inf', 0.0, -0.0, 1.0, -1.0, 0.5, 2.0, 10.0, 1e-
 
 
 def gen_spec(rng):
-    k = rng.choice(['create', 'create', 'create', 'replace', 'replace', 'names', 'set_inits', 'set_inits', 'rvs_seq', 'rvs_single', 'rvs_add',
+    k = rng.choice(['create', 'create', 'create', 'replace', 'replace', 'names', 'set_inits', 'set_inits', 'set_fix', 'set_fix', 'rvs_seq', 'rvs_single', 'rvs_add',
                     'canon', 'canon', 'canon', 'canon'])
     if k == 'create':
         style = rng.random()
@@ -571,6 +571,17 @@ def gen_spec(rng):
             kw['fix'] = rng.random() < 0.5
         return {'k': 'replace', 'base': base, 'kw': kw}
     pool = ['A', 'B', 'C', 'D', 'E']
+    if k == 'set_fix':
+        ps = []
+        for nm in rng.sample(pool, rng.choice([1, 2, 3, 4])):
+            vals = sorted(rng.choice([0.0, 0.5, 1.0, 2.0, 10.0, -1.0]) for _ in range(3))
+            lo, up = (vals[0] if rng.random() < 0.6 else None), (vals[2] if rng.random() < 0.6 else None)
+            init, raw = vals[1], False
+            if rng.random() < 0.15:          # built with the unchecked constructor, init outside its bounds
+                init, lo, up, raw = vals[2] + 1.0, vals[0], vals[2], True
+            ps.append([nm, enc(init), enc(lo), enc(up), rng.random() < 0.4, raw])
+        fx = {nm: rng.random() < 0.5 for nm in rng.sample(pool, rng.choice([0, 1, 2, 3, 5]))}
+        return {'k': 'set_fix', 'params': ps, 'fix': fx}
     if k == 'set_inits':
         ps = []
         for nm in rng.sample(pool, rng.choice([1, 2, 3, 4])):
@@ -686,6 +697,23 @@ def observe(spec, impl=None):
             return oxnum(spec['kw'][key]) if key in spec['kw'] else 'None'
         fx = f"(Some {ct.boolean(spec['kw']['fix'])})" if 'fix' in spec['kw'] else 'None'
         return f"(CReplace {bt} {okw('init')} {okw('lower')} {okw('upper')} {fx} {pobs(p)})", info
+    if k == 'set_fix':
+        def mk(n, i, l, u, f, raw):
+            if raw:
+                return Parameter(n, dec(i), dec(l) if l is not None else -float('inf'), dec(u) if u is not None else float('inf'), f)
+            return Parameter.create(n, dec(i), dec(l), dec(u), f)
+        base = Parameters.create([mk(*p_) for p_ in spec['params']])
+        try:
+            r = base.set_fix(dict(spec['fix']))
+        except ValueError:
+            r = None
+        info['accepted'] = r is not None
+
+        def plist2(ps):
+            return ct.lst([param_term(names, p.name, fenc(p.init), fenc(p.lower), fenc(p.upper), p.fix) for p in ps])
+        fxs = ct.lst([f"({names.p(n)}, {ct.boolean(v)})" for n, v in spec['fix'].items()])
+        obs = 'None' if r is None else f"(Some {plist2(r)})"
+        return f"(CSetFix {plist2(base)} {fxs} {obs})", info
     if k == 'set_inits':
         base = Parameters.create([Parameter.create(n, dec(i), dec(l), dec(u), f) for n, i, l, u, f in spec['params']])
         try:
@@ -1020,7 +1048,7 @@ def wf_part(ctx, tabs, B, fns):
         ctx.coverage['regress_returned'] = ctx.coverage.get('regress_returned', 0) + 1
         for t in sorted(set(pytags) | {t for t in ctags if t in ORACLE_TAGS}):
             ctx.violation(f"model returned by {sp['function']}: {TAGS[t]}", {'spec': sp, 'tags': [t], 'tag_meaning': TAGS[t]})
-    specs = [s for s in specs if s.get('k') in ('create', 'replace', 'names', 'set_inits', 'rvs_seq', 'rvs_single', 'rvs_add', 'canon')]
+    specs = [s for s in specs if s.get('k') in ('create', 'replace', 'names', 'set_inits', 'set_fix', 'rvs_seq', 'rvs_single', 'rvs_add', 'canon')]
     n = 500 if ctx.tier == 'quick' else 8000
     specs += [gen_spec(ctx.rng) for _ in range(n)]
     terms, kept, infos = [], [], []
@@ -1284,7 +1312,7 @@ def replay(ctx, rep):
     import warnings
     warnings.filterwarnings('ignore')
     kind = rep.get('kind') or (rep.get('spec') or {}).get('k')
-    if 'spec' in rep and rep['spec'].get('k') in ('create', 'replace', 'names', 'set_inits', 'rvs_seq', 'rvs_single', 'rvs_add', 'canon'):
+    if 'spec' in rep and rep['spec'].get('k') in ('create', 'replace', 'names', 'set_inits', 'set_fix', 'rvs_seq', 'rvs_single', 'rvs_add', 'canon'):
         term, info = observe(rep['spec'])
         tags = ctx.run_cases('replay', IMPORTS, 'case', [term], 'verdict')[0]
         print('spec', json.dumps(rep['spec']))
